@@ -190,6 +190,11 @@ def random_schedule(rng, idx):
     active = [first]
     shut = False
     variants = ["", "", "", "", "", "", "ok", "unsucc", "last"]
+    # one schedule in eight hands ONE Message object to all observers (updated_state(response)) instead of
+    # one per observer: kept apart so that the two families have separate signatures
+    shared_family = idx % 8 == 7
+    if shared_family:
+        variants = ["", "", "", "shared-ok", "shared-ok", "shared-unsucc", "last"]
     for _ in range(rng.randint(3, 11)):
         t += rng.choice([0, 1, 1, 7, 40, 600, 2100, 4200, 9000])
         kinds = ["change"] * 6 + ["rereg", "dereg", "plain", "dup", "rstnth"]
@@ -206,10 +211,8 @@ def random_schedule(rng, idx):
             p = rng.random()
             if p < 0.6:
                 steps.append({"at": t, "do": "change", "n": rng.choice([1, 1, 1, 2, 3]), "x": rng.choice(variants)})
-            elif p < 0.9:
-                steps.append({"at": t, "do": "change", "xs": [rng.choice(variants) for _ in range(rng.choice([2, 2, 3]))]})
             else:
-                steps.append({"at": t, "do": "change", "x": rng.choice(["shared-ok", "shared-unsucc"])})
+                steps.append({"at": t, "do": "change", "xs": [rng.choice(variants) for _ in range(rng.choice([2, 2, 3]))]})
         elif k == "newobs":
             o = pending.pop(0)
             s = reg(o["r"], o["tok"], nextmid(o["r"]), o["ty"], at=t)
@@ -296,7 +299,7 @@ def work(rep, args):
     seed = args.seed
     rng = random.Random(seed * 7919 + 8)
     if quick:
-        mc_confs = [dict(mr=1, nobs=2, chg=2, env=3, sil=2, maxt=4), dict(mr=1, nobs=1, chg=3, env=4, sil=2, maxt=4)]
+        mc_confs = [dict(mr=1, nobs=2, chg=2, env=3, sil=2, maxt=4), dict(mr=1, nobs=1, chg=3, env=3, sil=2, maxt=4)]
         nsim, nrand = 150, 400
     else:
         mc_confs = [dict(mr=1, nobs=2, chg=3, env=3, sil=2, maxt=4), dict(mr=1, nobs=1, chg=3, env=5, sil=3, maxt=6), dict(mr=2, nobs=1, chg=3, env=3, sil=3, maxt=8)]
